@@ -40,7 +40,8 @@ def run(ctx):
     ]
     ctx.assumptions += ["one traf / one trun per fragment on the encrypt side (EncryptFragment rejects anything else)",
                         "cbcs inverse: E, D map to 16-byte blocks and D k (E k b) = b for 16-byte b; sub-sample map fits the sample (< 2^32 bytes)",
-                        "clear input fragments carry no pssh/saiz/saio/senc boxes of their own"]
+                        "clear input fragments carry no pssh/saiz/saio/senc boxes of their own",
+                        "fragment theorems: default-base-is-moof addressing (an absolute tfhd base_data_offset is known finding C06-F2)"]
     exe, model = build(ctx)
     pr = ctx.proofs("c06", "C06Theorems.v")
     n = ctx.n(400, 8000)
@@ -67,7 +68,7 @@ def run(ctx):
                         "constant IV, IV count != sample count, missing/short sub-sample lists, maps beyond the sample, bad keys, "
                         "schemes cenc/cbcs/other, patterns 1:9 and 0:0; S RemoveEncryptionBoxes on trafs mixing saiz/saio/senc/tfxd/tfrf/"
                         "unknown/free/trun/tfdt; G DecryptFragment after EncryptFragment+encode+decode (AVC/HEVC/audio, both schemes, "
-                        "extra boxes in moof/traf, optional pssh in moof): children kinds/sizes/identity, trun data offset, mdat position",
+                        "extra boxes in moof/traf, optional pssh in moof) and on the fragments of the 5 third-party encrypted files (PIFF uuid-senc, several truns): children kinds/sizes/identity, trun data offset, mdat position",
     }
     ctx.cov["samples"] += [l[:300] for l in lines[10:12]] + [l[:300] for l in lines[n + 5:n + 7]] + [l[:300] for l in lines[-2:]]
     ctx.log("correspondence: %d cases, %d mismatches" % (len(lines), len(mism)))
@@ -111,9 +112,9 @@ def run(ctx):
             ctx.log("fixed: property=C06 %s %s" % (k.get("commit"), k.get("site")))
     ctx.cov["rule"] = ("corr: %d case lines (kinds %s), distinct = distinct case lines; search: %d synthetic clear tracks (AVC/HEVC NALU "
                        "size mixes around 1,15-17,107-128,65535+-1, audio; cenc/cbcs; 8/16-byte IVs incl. ff..ff; extra uuid/unknown/free "
-                       "boxes in moof/traf) through InitProtect/EncryptFragment -> encode -> decode -> DecryptInit/DecryptFragment -> encode, "
-                       "byte comparison with the clear file (then per-clause diagnosis); 5 third-party encrypted files: sizes/timing kept"
-                       % (len(lines), kinds, ns))
+                       "boxes in moof/traf, optional pssh in moof) through InitProtect/EncryptFragment -> encode -> decode -> DecryptInit/DecryptFragment -> encode, "
+                       "byte comparison with the clear file (then per-clause diagnosis); %d whole files built like mp4ff-encrypt/-decrypt process them (1-4 fragments, styp, 0-2 pssh in moov, tfhd base_data_offset variants); 5 third-party encrypted files: sizes/timing kept"
+                       % (len(lines), kinds, ns, ns // 2))
 
 
 def replay(ctx, path):
